@@ -310,4 +310,53 @@ theorem sdrChunkOp_ms (Φ : (Nat → Option Nat) → Prop) (hfs : MultiSafeOn Φ
 
 end chunkop
 
+/-- What is assumed of the device for one SDR: with the reservation `res`, the header read of
+record `rid` and every read of the record `rid'` named in the header that stays inside it are
+answered OK with exactly those bytes. -/
+def SdrStorage (cfg : SdrCfg) (mk : Nat → Nat → Nat → Nat → Req) (nextOf : Rsp → Nat)
+    (pay : Rsp → List Nat) (base : Req → Rsp) (res rid rid' nx0 nx : Nat) (rec : List Nat) : Prop :=
+  ((base (mk res rid 0 cfg.hdrLen)).cc = 0 ∧ nextOf (base (mk res rid 0 cfg.hdrLen)) = nx0 ∧
+      pay (base (mk res rid 0 cfg.hdrLen)) = rec.take cfg.hdrLen) ∧
+  ∀ off len, off + len ≤ rec.length →
+    (base (mk res rid' off len)).cc = 0 ∧ nextOf (base (mk res rid' off len)) = nx ∧
+      pay (base (mk res rid' off len)) = (rec.drop off).take len
+
+section storage
+variable (cfg : SdrCfg) (cs : ChunkCodes) (reserve : Prog Nat) (setRes : Nat → Req → Req) (budget : Nat)
+  (mk : Nat → Nat → Nat → Nat → Req) (nextOf : Rsp → Nat) (pay : Rsp → List Nat) (base : Req → Rsp)
+
+theorem sdrStorage_head (res rid rid' nx0 nx : Nat) (rec : List Nat) (hb : 1 ≤ budget)
+    (hdev : SdrStorage cfg mk nextOf pay base res rid rid' nx0 nx rec) (n : Nat) :
+    outcome (sdrChunkOp cs reserve setRes budget mk nextOf pay res rid 0 cfg.hdrLen) (pureDev base) n =
+      .ok (nx0, rec.take cfg.hdrLen) := by
+  obtain ⟨⟨h0, h1, h2⟩, _⟩ := hdev
+  rw [sdrChunkOp_pure cs reserve setRes budget mk nextOf pay base res rid 0 cfg.hdrLen n hb h0, h1, h2]
+
+theorem sdrStorage_served (res rid rid' nx0 nx : Nat) (rec : List Nat) (hb : 1 ≤ budget)
+    (hdev : SdrStorage cfg mk nextOf pay base res rid rid' nx0 nx rec) :
+    SdrServed (sdrChunkOp cs reserve setRes budget mk nextOf pay res rid') rec.length base rec nx := by
+  refine ⟨rfl, fun off len n hle => ?_⟩
+  obtain ⟨s0, s1, s2⟩ := hdev.2 off len hle
+  rw [sdrChunkOp_pure cs reserve setRes budget mk nextOf pay base res rid' off len n hb s0, s1, s2]
+
+end storage
+
+/-- Fault-free, get_sdr_data_helper ends in RetryError (a record too long for its iteration
+budget) or returns the stored record and the next-record id. -/
+theorem sdrData_good (cfg : SdrCfg) (reserve : Prog Nat)
+    (chunk : Nat → Nat → Nat → Nat → Prog (Nat × List Nat)) (hdr : List Nat → Res (Nat × Nat))
+    (base : Req → Rsp) (resOpt : Option Nat) (rid res rid' L nx0 nx : Nat) (rec : List Nat)
+    (hres : ∀ n, outcome (sdrReservation reserve resOpt) (pureDev base) n = .ok res)
+    (hhead : ∀ n, outcome (chunk res rid 0 cfg.hdrLen) (pureDev base) n = .ok (nx0, rec.take cfg.hdrLen))
+    (hparse : hdr (rec.take cfg.hdrLen) = .ok (rid', L)) (hlen : cfg.hdrLen ≤ L)
+    (hdev : SdrServed (chunk res rid') L base rec nx) (n : Nat) :
+    outcome (sdrData cfg reserve chunk hdr resOpt rid) (pureDev base) n = .error .retryError ∨
+      outcome (sdrData cfg reserve chunk hdr resOpt rid) (pureDev base) n = .ok (nx, rec) := by
+  unfold sdrData
+  rw [outcome_bind_ok (hres n), outcome_bind_ok (hhead _)]
+  have hp : ∀ k, outcome (Prog.ofRes (hdr (rec.take cfg.hdrLen))) (pureDev base) k = .ok (rid', L) := by
+    intro k; rw [outcome_ofRes, hparse]
+  rw [outcome_bind_ok (hp _), outcome_pure_good]
+  exact sdrLoop_dich cfg (chunk res rid') L base rec nx hdev _ _ cfg.hdrLen hlen
+
 end PyIpmi.Prog
